@@ -55,8 +55,9 @@ class _PredictGP:
     def __init__(self, mu, s2):
         self.mu, self.s2 = mu, s2
 
-    def predict(self, xi):
-        return self.mu, self.s2
+    def predict(self, xi, add_noise=False, **kw):
+        # the acquisition is defined on the GP's posterior SD; a caller asking for the PREDICTIVE variance gets a visibly different one
+        return self.mu, (self.s2 + 0.25 if add_noise else self.s2)
 
 
 def lcb_documented(D, func_count, f_mu, f_s2):
